@@ -47,11 +47,13 @@ type vWorld struct {
 	faultAt       int
 	site          string // where the fault fired
 	sites         []string
-	countStatus   bool            // GetDeployStatus answers with recorded + in-progress counts (C13)
-	onStep        func()          // observer called at every intercepted call (C13)
-	planned       map[string]int  // node -> instances the deployment asked the resource manager for
-	allocSeq      int             // allocations handed out so far
-	returned      map[string]bool // allocations given back through RollbackAlloc
+	countStatus   bool                // GetDeployStatus answers with recorded + in-progress counts (C13)
+	onStep        func()              // observer called at every intercepted call (C13)
+	planned       map[string]int      // node -> instances the deployment asked the resource manager for
+	allocSeq      int                 // allocations handed out so far
+	returned      map[string]bool     // allocations given back through RollbackAlloc
+	copies        map[string][]*vCopy // file copies the engine was asked for, per workload
+	copyBehaviour map[string]int
 	removalBegan  bool            // some workload's removal has released its usage (the removal phase has begun)
 	delRefused    map[string]bool // nodes whose DeleteProcessing was the injected failure
 }
